@@ -212,3 +212,91 @@ func layoutOf(by []byte) ([]spec.Chunk, []int) {
 }
 
 func TestC05(t *testing.T) { rapid.Check(t, propC05) }
+
+// TestRegressC05ReceiverSweep enumerates a small scope exhaustively: receivers that previously held R
+// one-value chunks (their three parallel tables grown step by step, so that the capacities of the
+// tables drift apart) x streams of S chunks for every S up to 2R+8 x five entry points. The tables
+// of a reused receiver are re-sliced, not re-made: every (R,S) combination must decode to the stream's set.
+func TestRegressC05ReceiverSweep(t *testing.T) {
+	streams := map[int][]byte{}
+	sets := map[int]*roaring.Bitmap{}
+	streamOf := func(s int) ([]byte, *roaring.Bitmap) {
+		if by, ok := streams[s]; ok {
+			return by, sets[s]
+		}
+		b := roaring.New()
+		for k := 0; k < s; k++ {
+			b.Add(uint32(k)<<16 | uint32(k%7))
+		}
+		if s%2 == 1 {
+			b.AddRange(uint64(s)<<16, uint64(s)<<16+300) // run cookie for odd sizes
+			b.RunOptimize()
+		}
+		by, err := b.ToBytes()
+		if err != nil {
+			t.Fatalf("ToBytes: %v", err)
+		}
+		streams[s], sets[s] = by, b
+		return by, b
+	}
+	decodes := 0
+	for _, r := range []int{1, 2, 3, 4, 5, 7, 8, 9, 15, 16, 17, 31, 32, 33, 40, 48, 63, 64, 65, 100, 127, 128, 129, 200, 256, 257} {
+		for hist := 0; hist < 4; hist++ {
+			for s := 1; s <= 2*r+8; s++ {
+				by, want := streamOf(s)
+				for entry := 0; entry < 5; entry++ {
+					if hist >= 2 && entry != (s+r)%5 {
+						continue // the rarer histories: one entry point per combination
+					}
+					recv := roaring.New()
+					switch hist % 2 {
+					case 0: // ascending keys: append at the end
+						for k := 0; k < r; k++ {
+							recv.Add(uint32(k+3)<<16 | 9)
+						}
+					default: // descending keys: insert at the front
+						for k := r; k > 0; k-- {
+							recv.Add(uint32(k+3)<<16 | 9)
+						}
+					}
+					if hist >= 2 {
+						recv.Clear()
+					}
+					var err error
+					p, st := inst.Try(func() {
+						switch entry {
+						case 0:
+							_, err = recv.ReadFrom(bytes.NewReader(by))
+						case 1:
+							_, err = recv.FromBuffer(by)
+						case 2:
+							_, err = recv.FromUnsafeBytes(by)
+						case 3:
+							err = recv.UnmarshalBinary(by)
+						default:
+							_, err = recv.FromBase64(base64.StdEncoding.EncodeToString(by))
+						}
+					})
+					decodes++
+					what := fmt.Sprintf("%s of a valid %d-chunk stream into a receiver that previously held %d chunks (history %d)", entryNames[entry], len(want.VerifChunks()), r, hist)
+					if p != nil {
+						t.Fatalf("%s panicked: %v [%s]", what, p, st)
+					}
+					if err != nil {
+						t.Fatalf("%s: %v", what, err)
+					}
+					if !recv.Equals(want) || recv.GetCardinality() != want.GetCardinality() {
+						t.Fatalf("%s: not Equal to the original", what)
+					}
+					if entry != 1 && entry != 2 {
+						recv.Add(5)
+						if !recv.Contains(5) || recv.GetCardinality() != want.GetCardinality()+1 {
+							t.Fatalf("%s: decoded bitmap misbehaves after Add", what)
+						}
+					}
+				}
+			}
+		}
+	}
+	inst.CountN("C05", "receiver-sweep-decodes", decodes)
+}
